@@ -323,7 +323,7 @@ def escape_forms(ctx, n):
     """names with backslash escapes for the hand-written scanners (check_escaped): plain and quoted, 4-digit and
     braced unicode forms, simple escapes, cut short at every length"""
     r = ctx.rng
-    out = []
+    out = surrogate_forms()
     hexd = '0123456789abcdefABCDEF'
     for _ in range(n):
         parts = []
@@ -344,3 +344,11 @@ def escape_forms(ctx, n):
 def scalar_roots():
     """one document of every scalar kind (documents whose root is not a container)"""
     return [('u', 5), ('u', 0), ('i', -1), ('u', 2), ('s', b'a'), ('s', b''), ('b', True), ('b', False), ('n',), ('d', gen.float_to_bits(1.5))]
+
+
+def surrogate_forms():
+    """surrogate pairs whose halves are spelled in the same or in different forms (4 digits / braced, either case), alone and
+    followed by more text; lone halves; halves in the wrong order"""
+    hi, lo = ['\\uD83D', '\\u{D83D}', '\\ud83d'], ['\\uDE00', '\\u{DE00}', '\\ude00']
+    return [h + l + tail for h in hi for l in lo for tail in ('', 'a', '\\u0041')] + hi + lo + [l + h for h in hi[:2] for l in lo[:2]] + \
+           ['x' + h + l for h in hi[:2] for l in lo[:2]] + [h + 'x' + l for h in hi[:2] for l in lo[:2]]
